@@ -6,6 +6,7 @@ import (
 	"go/types"
 	"strings"
 
+	"golang.org/x/tools/go/cfg"
 	"golang.org/x/tools/go/packages"
 )
 
@@ -137,6 +138,22 @@ func checkPairing(spec pairSpec, pk *packages.Package, name string, body *ast.Bl
 			}
 		}
 		return out
+	}
+	// nil-correlated resources: on a branch edge where "<resource expr> == nil"
+	// holds, no reference can be held through that expression.
+	fl.Edge = func(from *cfg.Block, succ int, out Set) (Set, bool) {
+		cond, tag, ok := branchCond(from)
+		if !ok || tag != nil {
+			return out, true
+		}
+		var facts []Fact
+		splitCond(cond, succ == 0, &facts)
+		for _, f := range facts {
+			if x, isNil, ok := errNilFact(info, f); ok && isNil && out[x] {
+				out = out.without(x)
+			}
+		}
+		return out, true
 	}
 	fl.Solve()
 	var res []heldExit
